@@ -875,6 +875,8 @@ def rule_G7(ctx):
                         and any(isinstance(t, ast.Name) and t.id == v for t in x.targets)]
                 if any(not (set(fg.atoms(x)) - base) and _in_body_directly(loop, x) for x in defs):
                     continue  # (re)assigned unconditionally on every iteration
+                if _assigned_on_all_paths(loop.body, v, d):
+                    continue  # every path through the body assigns it before it is read
                 if any(isinstance(y, ast.Name) and y.id == v for x in defs for y in ast.walk(x.value)):
                     continue  # some assignment builds on the previous value: an accumulator
                 cond = set(fg.atoms(d)) - base
@@ -905,6 +907,21 @@ def rule_G7(ctx):
     if not n:
         res.holds(("no conditional per-iteration local",))
     return res
+
+
+def _assigned_on_all_paths(stmts, v, upto=None):
+    """Some statement of the list assigns v whatever branch is taken (an assignment, or an if
+    both arms of which do) - looked for up to and including the statement that holds `upto`."""
+    for s_ in stmts:
+        if isinstance(s_, ast.Assign) and any(
+                isinstance(t, ast.Name) and t.id == v for t in s_.targets):
+            return True
+        if isinstance(s_, ast.If) and s_.orelse and _assigned_on_all_paths(s_.body, v) and \
+                _assigned_on_all_paths(s_.orelse, v):
+            return True
+        if upto is not None and any(x is upto for x in ast.walk(s_)):
+            return False
+    return False
 
 
 def _in_body_directly(loop, stmt):
